@@ -31,8 +31,25 @@ class C08(Prop):
             if mode in ("never", "auto-never"):
                 lines.append("strm strip %s %s %s" % (wk, script, ops))
         yield "mixed-ops", lines
+        # the caller protocol over AutoStream::never(..).write: what arrives must be Spec/Strip of the input
+        import itertools
+        from .c06 import ENTRIES, SHORT_INPUTS
+        lines = []
+        for inp in SHORT_INPUTS + [list("naïve café €".encode())]:
+            for d in range(0, 4):
+                for sc in itertools.product(ENTRIES, repeat=d):
+                    lines.append("drvn %s %s" % (",".join(sc) if sc else "-", gen.hexs(inp)))
+        for _ in range(n // 2):
+            lines.append("drvn %s %s" % (random_script(rng, rng.randrange(0, 20)), gen.hexs(gen.grammar_stream(rng, valid_utf8=rng.randrange(2) == 0))))
+        yield "never-protocol", lines
 
     def observe(self, ctx, name, lines, results):
+        if name == "never-protocol":
+            from .c06 import C06
+            return C06.observe(self, ctx, "protocol-never", lines, results)
+        return self.observe_modes(ctx, name, lines, results)
+
+    def observe_modes(self, ctx, name, lines, results):
         """never == strip: the inner history under AutoStream::never equals that under StripStream"""
         out = []
         for label, _ in ctx["impls"]:
@@ -68,7 +85,8 @@ class C08(Prop):
         return out
 
     def nontrivial(self, line, impl):
-        return "1b" in line.split(" ")[4]
+        p = line.split(" ")
+        return "1b" in (p[4] if p[0] == "strm" else p[2])
 
     def shrink_fields(self, line):
         return []
